@@ -66,6 +66,12 @@ FAULTS = [
     ('expr_backslash', "K9 = '\\'", None, None),
     ('expr_call', 'addi x1, x0, abs(3)', None, None),
     ('expr_div0', 'K9 = 1 // 0', None, None),
+    ('expr_negshift', 'addi x1, x0, 1 << -1', None, None),
+    ('expr_negshift_const', 'K9 = 4 >> -2', None, None),
+    ('expr_attr', 'K9 = (1).foo', None, None),
+    ('expr_key', 'dw {}[1]', None, None),
+    ('expr_huge', 'K9 = 2 ** -1', None, None),
+    ('expr_negshift_li', 'li x5, 0x1000 >> -3', None, None),
     ('bytes_word', 'bytes foo', None, None),
     ('shorts_float', 'shorts 1.5', None, None),
     ('db_float', 'db 2.5', None, None),
